@@ -1,6 +1,43 @@
-HOOK_COMMITS = []
+HOOK_COMMITS = ["f2f06c6"]
 
 TEXT = {
+ "C02": {
+  "technique": "property-based testing (rapid) with a schedule-owning explorer: generated response graphs and completion orders against traversal.Operation, validity-predicate oracle over the harness's own record of who answered",
+  "level": "Generated-input and generated-schedule search. DoQuery is a harness callback, so the check owns the completion order of the in-flight queries; response graphs include silent, lying, duplicate-ID and filtered nodes, and a second family builds truthful finite networks where the result must be exactly the K closest. Held on every generated (graph, schedule) pair; says nothing about pairs not generated.",
+  "note": "Trusts the VerifSnapshot hook (outstanding count and the package's own haveQuery under the operation mutex) to decide that the operation has reacted to an event; interleavings of the operation's internal goroutines are sampled (repetition, -race shard), not enumerated.",
+  "ref": "DESIGN.md section 4, C02",
+ },
+ "C03": {
+  "technique": "property-based testing (rapid) with a schedule-owning explorer; liveness judged by a goroutine-state deadlock detector, stall safety by a reference model of learned/queried contacts",
+  "level": "Generated schedules of query completion, late AddNodes and Stop. Liveness (stall is reported, Stop completes) is decided by 'every module goroutine is blocked and the awaited event has not happened', safety of each stall report by an independent model. A lost wake-up that needs one specific preemption inside the operation's critical sections can be missed.",
+  "note": "Deadline hits with runnable goroutines are reported as inconclusive (exit 2), never as violations.",
+  "ref": "DESIGN.md section 4, C03",
+ },
+ "C04": {
+  "technique": "property-based testing (rapid) with adversarially biased response graphs (one address under many IDs, filtered addresses) and invariants asserted at every DoQuery entry",
+  "level": "Generated adversarial response graphs and schedules; the invariants (<= Alpha in flight, once per address, never a filtered address, contexts cancelled at Stop) are checked at every query the lookup issues.",
+  "note": "An address counts as rejected by the filter when every (address, ID) pair it was offered under fails the generated filter predicate.",
+  "ref": "DESIGN.md section 4, C04",
+ },
+ "C08": {
+  "technique": "property-based testing (rapid) over batches of inbound datagrams on a simulated socket; every outbound datagram attributed to its query after a quiescence barrier and judged against the KRPC reply rules",
+  "level": "Generated batches of queries/non-queries of all methods, transaction IDs, argument shapes and source families in passive / hooked / peer-store configurations; the complete outbound traffic of the node is observed at the socket seam.",
+  "note": "Trusts the quiescence barrier (serve loop parked, all module goroutines blocked, twice) for 'nothing else was sent'; missing replies are re-examined after a 2 s grace wait. Replies are parsed with the harness's own bencode reader.",
+  "ref": "DESIGN.md section 4, C08",
+ },
+ "C17": {
+  "technique": "property-based testing (rapid) against a bitwise CRC32-C reference of BEP 42, metamorphic relations, and exhaustive enumeration of the 2^20 x 8 masked IPv4 space in the thorough tier",
+  "level": "Differential testing against an independent table-less CRC32-C implementation of the BEP 42 rule; the thorough tier enumerates every masked IPv4 value with every seed (8.4M cases), the quick tier one eighth of it; IPv6, v4-mapped and server configurations are sampled.",
+  "note": "The reference model is written from the BEP text; IPv6 ULA addresses are not asserted either way.",
+  "ref": "DESIGN.md section 4, C17",
+ },
+ "C18": {
+  "technique": "property-based testing (rapid) of algebraic laws (metric, strict total order, set/k-nearest models) plus exhaustive enumeration of all 160 shared-prefix lengths",
+  "level": "Law checking over structured ID triples, candidate sets with ties and unknown IDs (all pairs and triples of each generated set), container operation sequences against sorted-slice/set models, and all 160 prefix lengths x 160 buckets enumerated.",
+  "note": "Uses in-package hooks for the unexported bucket-index and random-bucket-ID helpers.",
+  "ref": "DESIGN.md section 4, C18",
+ },
+
  "C15": {
   "technique": "property-based testing (rapid): round-trip and fixpoint oracles over generated Msg values, mutated encodings and length-biased byte strings; native fuzzing in the thorough tier",
   "level": "Generated-input search: every run draws tens of thousands of krpc.Msg values over the full field set, byte-mutated encodings, KRPC-shaped dictionaries with mistyped fields, and byte strings with lengths around multiples of each compact entry size, and checks round-trip, re-encode fixpoint, exact-length acceptance and absence of panics. It shows the property on everything generated, not for all inputs.",
